@@ -2,7 +2,7 @@
 import itertools
 import vf.hx as hx
 from vf.spec import X, K
-from vf.stubs import NULL_LOGGER
+from vf.stubs import NULL_LOGGER, patched_pandas
 from ECAgent.Core import Model
 import ECAgent.Environments as Env
 
@@ -60,8 +60,8 @@ def x_cell_lookup(x: int, y: int, z: int) -> bool:
     hx.begin()
     w, h, d = hx.P['shape']
     table = _table((w, h, d))
-    env = Env.DiscreteWorld.__new__(Env.DiscreteWorld)
-    env.width, env.height, env.depth = w, h, d
+    with patched_pandas():
+        env = Env.DiscreteWorld(Model(logger=NULL_LOGGER), w, h, d)     # real constructor (pandas contract stand-in)
     env.cells = _ListCells(table)
     inside = 0 <= x < max(w, 1) and 0 <= y < max(h, 1) and 0 <= z < max(d, 1)
     try:
